@@ -286,6 +286,8 @@ impl AsyncFd {
         // not touching `this` after reading the fields.
         let fd = this.fd();
         let kind = this.kind();
+        #[cfg(a10_verif)]
+        crate::verif::emit("FdClose", [fd as u64, u64::from(kind == crate::fd::Kind::Direct), 0, 0, 0, 0]);
         let sq = unsafe { ptr::read(&raw const this.sq) };
         Close::new(sq, (), (fd, kind))
     }
